@@ -25,7 +25,12 @@ func (c *zzCtx) Deadline() (time.Time, bool)          { return time.Time{}, fals
 func (c *zzCtx) Done() <-chan struct{}                { return c.done }
 func (c *zzCtx) Err() error                           { return c.err }
 func (c *zzCtx) Value(key any) any                    { return nil }
-func (c *zzCtx) cancel()                              { c.err = context.Canceled; close(c.done) }
+func (c *zzCtx) cancel() {
+	if c.err == nil {
+		c.err = context.Canceled
+		close(c.done)
+	}
+}
 
 var _ context.Context = (*zzCtx)(nil)
 
@@ -251,7 +256,7 @@ func zzKVOp(st kvs.Storage, m *zzKV, vers *zzVersions, keyOf func(string) string
 		}
 		m.recs[i].present = false
 	case 7: // ListKeys
-		pattern := []string{"*", "a", "a*", "/*", "b*", "zz"}[vChoose("pattern", 6)]
+		pattern := []string{"*", "a", "a*", "b*", "zz", "/*"}[vChoose("pattern", vParam("NPAT"))]
 		it, err := st.ListKeys(ctx, pattern)
 		vAssert(err == nil && it != nil, "ListKeys failed")
 		var got []string
